@@ -24,6 +24,50 @@ func init() {
 
 const dataPat = "fld[data](p[0])"
 
+// entryRule: each store into m.data is keyed by i.Key and built from the same *Item's
+// Key/Conflict/Value/Expiration. Shared by C01 and C07.
+func entryRule(c *Ctx, ruleID string) {
+	L, P := c.L, c.P
+	for _, name := range []string{"Set", "Update"} {
+		name := name
+		c.Group(ruleID, "lockedMap."+name, func() {
+			fn := P.Fn("ristretto", "lockedMap", name)
+			tb := newTB(fn)
+			mus := mapUpdatesOf(fn, tb, dataPat)
+			if len(mus) == 0 {
+				L.Fail(ruleID, "lockedMap."+name, "no store into m.data", fn.Pos())
+				return
+			}
+			for _, mu := range mus {
+				ok := tb.T(mu.Key).String() == "fld[Key](p[1])"
+				detail := ""
+				if !ok {
+					detail = "stored under " + tb.T(mu.Key).String() + ", want fld[Key](p[1]); "
+				}
+				a := structValueAlloc(mu.Value)
+				if a == nil {
+					L.Undecided(ruleID, "lockedMap."+name, "stored value is not a local struct literal: "+tb.T(mu.Value).String(), mu.Pos())
+					return
+				}
+				lf := litFields(a)
+				for fld, src := range map[string]string{"key": "Key", "conflict": "Conflict", "value": "Value", "expiration": "Expiration"} {
+					sts := lf[fld]
+					want := "fld[" + src + "](p[1])"
+					if len(sts) != 1 || tb.T(sts[0].Val).String() != want {
+						got := "<unset>"
+						if len(sts) > 0 {
+							got = tb.T(sts[0].Val).String()
+						}
+						ok = false
+						detail += fmt.Sprintf("storeItem.%s = %s, want %s; ", fld, got, want)
+					}
+				}
+				L.Check(ok, ruleID, "lockedMap."+name, "entry stored under i.Key with key/conflict/value/expiration of the same *Item", detail, mu.Pos())
+			}
+		})
+	}
+}
+
 func runC01(c *Ctx) {
 	L, P := c.L, c.P
 	L.Rule("R-C01-CONFLICT", "in every lockedMap function that looks up m.data[k] with an incoming conflict hash, every use of the hit is reachable from the lookup only across the pass side of `incoming != 0 && incoming != stored.conflict`", 4)
@@ -273,44 +317,7 @@ func runC01(c *Ctx) {
 	})
 
 	// ---- R-C01-ENTRY
-	for _, name := range []string{"Set", "Update"} {
-		name := name
-		c.Group("R-C01-ENTRY", "lockedMap."+name, func() {
-			fn := P.Fn("ristretto", "lockedMap", name)
-			tb := newTB(fn)
-			mus := mapUpdatesOf(fn, tb, dataPat)
-			if len(mus) == 0 {
-				L.Fail("R-C01-ENTRY", "lockedMap."+name, "no store into m.data", fn.Pos())
-				return
-			}
-			for _, mu := range mus {
-				ok := tb.T(mu.Key).String() == "fld[Key](p[1])"
-				detail := ""
-				if !ok {
-					detail = "stored under " + tb.T(mu.Key).String() + ", want fld[Key](p[1]); "
-				}
-				a := structValueAlloc(mu.Value)
-				if a == nil {
-					L.Undecided("R-C01-ENTRY", "lockedMap."+name, "stored value is not a local struct literal: "+tb.T(mu.Value).String(), mu.Pos())
-					return
-				}
-				lf := litFields(a)
-				for fld, src := range map[string]string{"key": "Key", "conflict": "Conflict", "value": "Value", "expiration": "Expiration"} {
-					sts := lf[fld]
-					want := "fld[" + src + "](p[1])"
-					if len(sts) != 1 || tb.T(sts[0].Val).String() != want {
-						got := "<unset>"
-						if len(sts) > 0 {
-							got = tb.T(sts[0].Val).String()
-						}
-						ok = false
-						detail += fmt.Sprintf("storeItem.%s = %s, want %s; ", fld, got, want)
-					}
-				}
-				L.Check(ok, "R-C01-ENTRY", "lockedMap."+name, "entry stored under i.Key with key/conflict/value/expiration of the same *Item", detail, mu.Pos())
-			}
-		})
-	}
+	entryRule(c, "R-C01-ENTRY")
 	c.Group("R-C01-ENTRY", "Cache.processItems#Set", func() {
 		fn := P.Fn("ristretto", "Cache", "processItems")
 		L.Analysed(fname(fn))
